@@ -193,6 +193,19 @@ func main() {
 		xlib.Unreadable("isHidden: expected HasPrefix(file, p) || (HasPrefix(file, w) && HasSuffix(file, w))")
 	}
 
+	// ---- shouldExcludeMatch, isBuildFile, the two Match methods
+	se := f.Src(f.Func("shouldExcludeMatch").Body)
+	excludeShape := strings.Contains(se, "if isBathPathOf(match, filepath.Join(root, excl)) { return true, nil }") &&
+		strings.Contains(se, "if strings.ContainsRune(match, '/') && !strings.ContainsRune(excl, '/') { m = filepath.Base(match) rootPath = \"\" }") &&
+		strings.Contains(se, "matcher, err := patternToMatcher(rootPath, excl)") && strings.Contains(se, "match, err := matcher.Match(m)")
+	bp := f.Src(f.Func("isBathPathOf").Body)
+	basePathShape := strings.Contains(bp, "if !strings.HasPrefix(path, base) { return false }") &&
+		strings.Contains(bp, `return rest == "" || rest[0] == filepath.Separator`)
+	ib := f.Src(f.Func("isBuildFile").Body)
+	buildFileShape := strings.Contains(ib, ":= filepath.Base(name)") && strings.Contains(ib, "== buildFileName { return true }")
+	regexUnanchored := strings.Contains(f.Src(f.Func("regexGlob.Match").Body), ".regex.MatchString(name)")
+	builtinIsFilepathMatch := strings.Contains(f.Src(f.Func("builtInGlob.Match").Body), "filepath.Match(string(p), name)")
+
 	// ---- builtins.go: glob() appends the BUILD file names to the excludes and calls Globber.Glob with the package name
 	b := xlib.Parse("src/parse/asp/builtins.go")
 	// the call `<x>.Glob(pkgName, include, EXCL, hidden, includeSymlinks)` and, before it, `EXCL = append(EXCL, <...>.BuildFileName...)`
@@ -227,7 +240,10 @@ func main() {
 		"patternToMatcher joins root": joinsRoot, "regexp from toRegexString(fullPattern)": regexFromFull,
 		"plz-out guarded by rootPath == \".\"": outGuardDot, "sub-package SkipDir": subPkgSkip, "symlink bucket": symlinkBucket,
 		"glob filters sub-packages": filterSub, "glob filters hidden": filterHidden, "glob filters excludes": filterExcl,
-		"isInDirectories by dir+\"/\"": inDirsComponent, "isHidden on filepath.Base": hiddenOnBase} {
+		"isInDirectories by dir+\"/\"": inDirsComponent, "isHidden on filepath.Base": hiddenOnBase,
+		"shouldExcludeMatch: base path, file-name-only rule, matcher": excludeShape, "isBathPathOf": basePathShape,
+		"isBuildFile by base name": buildFileShape, "regexGlob.Match = regexp.MatchString (unanchored)": regexUnanchored,
+		"builtInGlob.Match = filepath.Match": builtinIsFilepathMatch} {
 		if !ok {
 			xlib.Unreadable("shape not recognised: %s", name)
 		}
